@@ -646,15 +646,59 @@ def run_path(tm, item, tables):
 
 
 # ----------------------------------------------------------------------------- voxel grids
-def voxel_geometry(name):
+VOXEL_TRANSFORMS = {"a": (0.5, [1, 2, 3]), "b": (1.0, [0, 0, 0]), "c": (0.125, [-7.25, 0.001, 1e5]), "d": (3.0, [1 / 3, -2 / 7, 0.1]),
+                    # an origin that is huge next to the pitch (survey coordinates, millimetre cells)
+                    "e": (0.001, [123456.789, -98765.4321, 4321.1234])}
+# run lengths (alternating empty / filled, starting with empty; the rest of the grid is empty) in the order
+# in which the exporter encodes the cells: every count-width boundary of the uint8 run-length code
+RUN_LISTS = {
+    "r255_1": (8, [255, 1]), "r254_1": (8, [254, 1]), "r256_1": (8, [256, 1]), "r255_2_255": (8, [255, 2, 255]),
+    "r0_255": (8, [0, 255]), "r1_255_1_255": (8, [1, 255, 1, 255]), "r510_1": (16, [510, 1]), "r511_1": (16, [511, 1]),
+    "r765_1_510_3": (16, [765, 1, 510, 3]), "r0_510_255_765": (16, [0, 510, 255, 765]), "r1020_255": (16, [1020, 255]),
+    "r4095_1": (16, [4095, 1]),
+}
+_BOUNDARY = [1, 2, 254, 255, 256, 509, 510, 511, 765]
+
+
+def runs_to_grid(side, runs, order):
+    flat = np.zeros(side ** 3, dtype=bool)
+    pos, val = 0, False
+    for n in runs:
+        flat[pos:pos + n] = val
+        pos += n
+        val = not val
+    if pos > len(flat):
+        raise MachineryError("run list longer than the grid")
+    g = flat.reshape(side, side, side)
+    # binvox encodes x, then z, then y; axis_order='xyz' encodes the array as it lies in memory
+    return g.transpose(0, 2, 1).copy() if order == "xzy" else g.copy()
+
+
+def voxel_geometry(name, order="xzy"):
     if name.startswith("rnd:"):
         _, sd, k = name.split(":")
         rs = np.random.RandomState((int(sd) * 6151 + int(k) * 49157 + 3) % (2 ** 31))
-        n = int(rs.randint(2, 8))
-        cells = rs.rand(n, n, n) < rs.choice([0.1, 0.5, 0.9])
         s = float(rs.choice([0.125, 0.5, 1.0, 3.0]))
         t = (rs.randint(-64, 65, size=3) / 4.0).tolist()
+        if int(k) % 2 == 1:
+            # seeded run lists drawn from the count-width boundaries
+            side = 16
+            runs, total = [], 0
+            while True:
+                n = int(rs.choice(_BOUNDARY)) * int(rs.choice([1, 1, 2]))
+                if total + n > side ** 3 or len(runs) >= 8:
+                    break
+                runs.append(n)
+                total += n
+            return runs_to_grid(side, runs, order), s, t
+        n = int(rs.randint(2, 8))
+        cells = rs.rand(n, n, n) < rs.choice([0.1, 0.5, 0.9])
         return cells, s, t
+    g, tr = name.split("@")
+    s, t = VOXEL_TRANSFORMS[tr]
+    if g in RUN_LISTS:
+        side, runs = RUN_LISTS[g]
+        return runs_to_grid(side, runs, order), s, t
     rs = np.random.RandomState(11)
     grids = {
         "3x3x3": (np.arange(27).reshape(3, 3, 3) % 3) != 1,
@@ -666,8 +710,6 @@ def voxel_geometry(name):
         "corner2": np.arange(8).reshape(2, 2, 2) == 5,
         "sparse12": rs.rand(12, 12, 12) > 0.97,
     }
-    g, tr = name.split("@")
-    s, t = {"a": (0.5, [1, 2, 3]), "b": (1.0, [0, 0, 0]), "c": (0.125, [-7.25, 0.001, 1e5]), "d": (3.0, [1 / 3, -2 / 7, 0.1])}[tr]
     return grids[g], s, t
 
 
@@ -677,7 +719,7 @@ VOXEL_GRIDS = ("3x3x3", "asym4", "all_true5", "shell8", "all_false", "run729", "
 def run_voxel(tm, item, tables):
     _, fam, fmt, gname, extra = item
     ft, ekw, lkw = VOXEL_VARIANTS[fmt]
-    cells, s, t = voxel_geometry(gname)
+    cells, s, t = voxel_geometry(gname, "xyz" if ekw.get("axis_order") == "xyz" else "xzy")
     rec = {"kind": "voxel", "fam": fam, "fmt": fmt, "geom": gname, "extra": extra, "exc": "", "src_ok": True,
            "cls": {"n": int(cells.sum()), "side": int(cells.shape[0])}, "obs": {"cells": False, "centres": False}}
     try:
@@ -704,7 +746,9 @@ def run_voxel(tm, item, tables):
             if len(a):
                 a = a[np.lexsort(np.round(a, 6).T[::-1])]
                 b = b[np.lexsort(np.round(b, 6).T[::-1])]
-            rec["obs"]["centres"] = bool(np.allclose(a, b, rtol=1e-9, atol=1e-9))
+            # the header is decimal text of doubles: centres come back to a millionth of a cell
+            tol = 1e-6 * abs(s) + 1e-13 * (float(np.abs(a).max()) if len(a) else 0.0)
+            rec["obs"]["centres"] = bool(len(a) == 0 or np.abs(a - b).max() <= tol)
     except MachineryError:
         raise
     except BaseException as e:  # noqa
@@ -725,7 +769,8 @@ def _M(R=None, t=(0, 0, 0), s=None):
 
 RZ = [[0, -1, 0], [1, 0, 0], [0, 0, 1]]
 RX = [[1, 0, 0], [0, 0, -1], [0, 1, 0]]
-SCENE_CONFIGS = ("same_name", "two_inst", "scale", "mirror", "shear", "deep", "identical_geoms", "colours", "mixed_kinds",
+SCENE_CONFIGS = ("faceless_first", "faceless_middle", "empty_first", "cloud_first", "cloud_middle",
+                 "same_name", "two_inst", "scale", "mirror", "shear", "deep", "identical_geoms", "colours", "mixed_kinds",
                  "list_ctor", "base_frame", "geometry_on_group", "grouped_two", "unused_geom", "face_colours")
 
 
@@ -770,6 +815,20 @@ def build_scene(tm, name):
             b.visual.face_colors = [[1, 2, 3, 255], [4, 5, 6, 255], [7, 8, 9, 255], [10, 11, 12, 255]]
         s.add_geometry(a, node_name="t1", geom_name="t1", transform=_M(None, [5, 0, 0]))
         s.add_geometry(b, node_name="t2", geom_name="t2", transform=_M(RZ, [0, 5, 0]))
+    elif name in ("faceless_first", "faceless_middle", "empty_first", "cloud_first", "cloud_middle"):
+        # a geometry that contributes vertices but no triangles (or nothing at all) next to real meshes, in
+        # front of them or between them: what the format carries of the others must come back undisturbed
+        if name.startswith("faceless"):
+            odd = tm.Trimesh(vertices=[[0, 0, 0], [1, 0, 0], [0, 1, 0], [5, 5, 5], [6, 6, 6]], faces=np.zeros((0, 3), dtype=np.int64), process=False)
+        elif name.startswith("empty"):
+            odd = tm.Trimesh()
+        else:
+            odd = tm.PointCloud([[0, 0, 0], [1, 2, 3], [-4, 5, 6.5], [8, 8, 8]], colors=[[255, 0, 0, 255], [0, 255, 0, 255], [0, 0, 255, 255], [7, 7, 7, 9]])
+        parts = [("odd", odd, _M(RZ, [1, 1, 1])), ("tet", tet(), _M(None, [5, 0, 0])), ("box", box(), _M(RX, [0, 7, 0]))]
+        if name.endswith("middle"):
+            parts = [parts[1], parts[0], parts[2]]
+        for n, g, A in parts:
+            s.add_geometry(g, node_name=n, geom_name=n, transform=A)
     elif name == "mixed_kinds":
         s.add_geometry(tet(), node_name="t1", geom_name="t1", transform=_M(None, [5, 0, 0]))
         s.add_geometry(tm.PointCloud([[0, 0, 0], [1, 2, 3], [-4, 5, 6.5]], colors=[[255, 0, 0, 255], [0, 255, 0, 255], [0, 0, 255, 255]]),
@@ -926,7 +985,7 @@ def enumerate_items(tables, tier, sd):
     seeds_unref = ["messy_vc", "messy_fc", "messy_plain"]
     # history: derived values read before exporting (exporters consult the cache)
     for fmt in mesh_all:
-        for g in (seeds_clean + seeds_unref) if thorough else ["box_vc", "dup_fc", "messy_vc", "messy_fc", "two_tets_vc"]:
+        for g in (seeds_clean + seeds_unref) if thorough else ["box_vc", "dup_fc", "messy_vc", "messy_fc"]:
             for level in ("1", "2", "exported_before"):
                 items.append(("mesh", "history", fmt, g, level))
     # empty geometry
@@ -978,21 +1037,24 @@ def enumerate_items(tables, tier, sd):
     # voxel grids
     for fmt in sorted(tables["voxel"]):
         for g in VOXEL_GRIDS:
-            for tr in "abcd":
+            for tr in ("abcde" if g in ("3x3x3", "asym4", "sparse12") or thorough else "a"):
                 items.append(("voxel", "voxel", fmt, g + "@" + tr, ""))
+        for g in RUN_LISTS:
+            items.append(("voxel", "voxel_runs", fmt, g + "@a", ""))
         for k in range(60 if thorough else 8):
             items.append(("voxel", "voxel_random", fmt, "rnd:%d:%d" % (sd, k), ""))
     items.append(("voxel", "entry", "binvox", "asym4@a", "name"))
     # scenes
     for fmt in sorted(tables["scene"]):
         for g in SCENE_CONFIGS:
-            if g == "mixed_kinds" and not {"cloud", "path"} <= set(tables["scene"][fmt]["kinds"]):
-                continue
+            kinds = {"mixed_kinds": {"cloud", "path"}, "cloud_first": {"cloud"}, "cloud_middle": {"cloud"}}.get(g, set())
+            if not kinds <= set(tables["scene"][fmt]["kinds"]) | set(tables["scene"][fmt]["tolerates"]):
+                continue        # the exporter does not accept this kind: nothing is promised
             items.append(("scene", "scene", fmt, g, ""))
     for fmt in ("glb", "gltf", "obj", "3mf", "ply", "stl"):
         items.append(("scene", "entry", fmt, "grouped_two", "name"))
     return items
 
 
-MIN_PER_FAMILY = {"history": 300, "empty": 50, "random": 250, "quant": 150, "entry": 60, "large": 20,
-                  "cloud": 70, "cloud_random": 50, "path": 60, "voxel": 60, "voxel_random": 14, "scene": 100}
+MIN_PER_FAMILY = {"history": 300, "voxel_runs": 20, "empty": 50, "random": 250, "quant": 150, "entry": 60, "large": 20,
+                  "cloud": 70, "cloud_random": 50, "path": 60, "voxel": 36, "voxel_random": 14, "scene": 130}
